@@ -164,7 +164,20 @@ func mutate(rng *Rng, e *xev) (*xev, string) {
 			return rndU256(rng)
 		}
 	}
-	switch rng.Intn(25) {
+	switch rng.Intn(27) {
+	case 25, 26: // one member's power moved by a multiple of 2^32 (the ranking of the members unchanged)
+		if len(m.members) > 0 {
+			top := 0
+			for i := range m.members {
+				if m.members[i].Power > m.members[top].Power {
+					top = i
+				}
+			}
+			if m.members[top].Power < 1<<62 {
+				m.members[top].Power += uint64(1+rng.Intn(3)) << 32
+			}
+		}
+		return m, "member-power-plus-2^32k"
 	case 24: // the same addresses with their powers exchanged
 		if len(m.members) > 1 {
 			i := rng.Intn(len(m.members) - 1)
